@@ -387,7 +387,7 @@ def construct_lattice_from_spanning_tree_parallel(concepts, sptree_chains, is_co
                     f"construct_lattice_from_spanning_tree error. only n_jobs>=1 or -1 are supported ({n_jobs} given)"
                 max_n_jobs = pm._effective_n_jobs() if n_jobs > 1 else 1
 
-                for chain_set_i in range(len(sptree_chains) // max_n_jobs):
+                for chain_set_i in range(-(-len(sptree_chains) // max_n_jobs)):  # ceil division: keep the last chains
                     min_chain_i = max_n_jobs * chain_set_i
                     chain_subset = tuple(sptree_chains[min_chain_i: min_chain_i + max_n_jobs])
                     outputs = pm(
@@ -401,7 +401,7 @@ def construct_lattice_from_spanning_tree_parallel(concepts, sptree_chains, is_co
                         superconcepts_dict[c_i_cur] |= superconcepts_cur
                         all_superconcepts[c_i_cur] |= all_superconcepts_cur
                         incomparables[c_i_cur] |= incomparables_cur
-                        idxs_comp[ch_i_comp] = idx_comp_start
+                        idxs_comp[ch_i_comp + min_chain_i] = idx_comp_start
 
     for c_i, c in enumerate(concepts):
         def sort_key(sc_i):
